@@ -405,7 +405,7 @@ class Evaluator:
                 env[st.target.id] = cur
                 continue
             if isinstance(st, ast.Expr) and isinstance(st.value, ast.Call) and isinstance(st.value.func, ast.Attribute) and isinstance(st.value.func.value, ast.Name) \
-                    and st.value.func.attr in ("add", "update", "append", "extend", "discard", "remove", "insert", "setdefault", "clear") \
+                    and st.value.func.attr in ("add", "update", "append", "extend", "discard", "remove", "insert", "setdefault", "clear", "pop") \
                     and isinstance(env.get(st.value.func.value.id), (set, list, dict)):
                 # mutation of a container that the fragment itself created
                 recv = env[st.value.func.value.id]
